@@ -87,6 +87,13 @@ func (r *renamer) visit(v Value) {
 		for _, b := range x.Buf {
 			r.visit(b)
 		}
+	case *SockObj:
+		r.visit(x.Local)
+		r.visit(x.Remote)
+	case StrV:
+		if x.Ref != nil {
+			r.visit(x.Ref)
+		}
 	}
 }
 
@@ -190,6 +197,21 @@ func (r *renamer) rewrite(v Value) (Value, bool) {
 			n.Buf = out
 			return &n, true
 		}
+	case *SockObj:
+		l, c1 := r.rewrite(x.Local)
+		rm, c2 := r.rewrite(x.Remote)
+		if c1 || c2 {
+			n := *x
+			n.Local, n.Remote = l, rm
+			return &n, true
+		}
+	case StrV:
+		if x.Ref != nil {
+			if n, ch := r.rewrite(x.Ref); ch {
+				x.Ref = n
+				return x, true
+			}
+		}
 	}
 	return v, false
 }
@@ -241,20 +263,37 @@ func (e *Engine) canonicalise(st *State, base ObjID, roots []Value) []Value {
 	if st.next <= base {
 		return roots
 	}
-	if st.net != nil || len(st.socks) > 0 {
-		return roots // the socket script and the recorded writes refer to heap objects by id: leave the heap as it is
-	}
-	for _, p := range st.parked {
-		if p.parkNext > base {
-			return roots // a parked goroutine may refer to objects of this frame: leave the heap as it is
-		}
-	}
+
 	r := &renamer{e: e, st: st, base: base, ren: map[ObjID]ObjID{}}
 	for _, v := range roots {
 		r.visit(v)
 	}
 	for _, o := range st.observe {
 		r.visit(o.V)
+	}
+	// sockets, the network script and recorded writes, parked goroutines: roots as well
+	for _, id := range st.socks {
+		r.obj(id)
+	}
+	if st.net != nil {
+		if st.net.script != nil {
+			for _, d := range st.net.script.Data {
+				r.visit(d)
+			}
+		}
+		for _, w := range st.net.writes {
+			r.visit(w.To)
+		}
+	}
+	for _, pg := range st.parked {
+		r.obj(pg.wait)
+		for _, k := range sortedRegs(pg.fr) {
+			r.visit(pg.fr.regs[k])
+		}
+		for _, d := range pg.fr.defers {
+			r.visit(d.fn)
+			r.visit(TupleV(d.args))
+		}
 	}
 	// older objects (of this state's own heap; base-heap objects cannot point to new ones unless overwritten,
 	// in which case they are in st.heap)
@@ -324,6 +363,57 @@ func (e *Engine) canonicalise(st *State, base ObjID, roots []Value) []Value {
 		}
 		st.views = vv
 	}
+	if len(st.socks) > 0 {
+		ns := make([]ObjID, len(st.socks))
+		for i, id := range st.socks {
+			ns[i] = id
+			if n, ok := r.ren[id]; ok {
+				ns[i] = n
+			}
+		}
+		st.socks = ns
+	}
+	if st.net != nil && !identity {
+		n := *st.net
+		if n.script != nil {
+			sc := &netScript{Arrival: n.script.Arrival, Data: make([]SliceV, len(n.script.Data))}
+			for i, d := range n.script.Data {
+				nv, _ := r.rewrite(d)
+				sc.Data[i] = nv.(SliceV)
+			}
+			n.script = sc
+		}
+		ws := make([]sockWrite, len(n.writes))
+		for i, w := range n.writes {
+			ws[i] = w
+			if w.To != nil {
+				ws[i].To, _ = r.rewrite(w.To)
+			}
+		}
+		n.writes = ws
+		st.net = &n
+	}
+	if len(st.parked) > 0 && !identity {
+		np := make([]*parkedG, len(st.parked))
+		for i, pg := range st.parked {
+			c := *pg
+			f := pg.fr.clone()
+			for k, v := range f.regs {
+				f.regs[k], _ = r.rewrite(v)
+			}
+			for j, d := range f.defers {
+				fn, _ := r.rewrite(d.fn)
+				as, _ := r.rewrite(TupleV(d.args))
+				f.defers[j] = deferred{fn: fn, args: []Value(as.(TupleV)), call: d.call}
+			}
+			c.fr = f
+			if n, ok := r.ren[pg.wait]; ok {
+				c.wait = n
+			}
+			np[i] = &c
+		}
+		st.parked = np
+	}
 	for i, o := range st.observe {
 		nv, ch := r.rewrite(o.V)
 		if ch {
@@ -339,6 +429,16 @@ func (e *Engine) canonicalise(st *State, base ObjID, roots []Value) []Value {
 	}
 	e.stats.Canon++
 	return out
+}
+
+func sortedRegs(fr *Frame) []ssa.Value {
+	order := fr.info.regOrder(fr.fn)
+	keys := make([]ssa.Value, 0, len(fr.regs))
+	for k := range fr.regs {
+		keys = append(keys, k)
+	}
+	sort.Slice(keys, func(i, j int) bool { return order[keys[i]] < order[keys[j]] })
+	return keys
 }
 
 // canonItem canonicalises an (state, frame) pair in place.
